@@ -132,7 +132,7 @@ func (g *gen) findCase() {
 	if kid != "" {
 		kt = "kid"
 	}
-	g.w.Add(emit.Case{Input: in, Observed: obs,
+	g.w.Add(emit.Case{Input: tok.Share(in), Observed: obs,
 		Tags:  []string{"kind=find", "alg=" + tagAlg(alg), "token=" + kt, fmt.Sprintf("nkeys=%d", len(keys)), "use=" + tagStr(use)},
 		Human: map[string]any{"kid": kid, "use": use, "alg": alg, "keys": len(keys)}})
 }
@@ -165,11 +165,24 @@ func (g *gen) publishedKeys(s *scenario) ([]tok.JWK, string) {
 	r := g.r
 	var keys []tok.JWK
 	name := ""
-	pk := r.IntN(16)
+	pk := r.IntN(18)
 	if s.valid {
 		pk = 13
 	}
 	switch pk {
+	case 16, 17: // several kid-less keys of the signer's type (legal, unusual): nothing singles one out
+		name = "kidless_twins"
+		tw := []tok.JWK{{Kid: "", Use: g.use(), Key: s.signer}}
+		if o := g.pool.Other(r, s.signer, s.alg); o != nil {
+			tw = append(tw, tok.JWK{Kid: "", Use: drv.Pick(r, []string{"sig", ""}), Key: o})
+		}
+		if r.Chance(1, 3) {
+			tw = append(tw, tok.JWK{Kid: "", Use: "sig", Key: s.signer})
+		}
+		if r.Chance(1, 3) {
+			tw[0], tw[len(tw)-1] = tw[len(tw)-1], tw[0]
+		}
+		keys = append(keys, tw...)
 	case 14: // a key id that differs from the header's only by case / white space / slash
 		name = "kid_near"
 		keys = append(keys, tok.JWK{Kid: nearID(r, s.kid), Use: "sig", Key: s.signer})
@@ -511,7 +524,7 @@ func (g *gen) checkSigCase() {
 		}
 	}
 	in := emit.Ctor("ICheckSig", emit.StrList(allowed), s.ks.Coq(), t.Coq(), emit.Str(parsed))
-	g.w.Add(emit.Case{Input: in, Observed: obs,
+	g.w.Add(emit.Case{Input: tok.Share(in), Observed: obs,
 		Tags:  []string{"kind=checksig", "mut=" + mut, "ks=" + s.ksKind, "keys=" + s.scenName, "alg=" + s.alg, "parsed=" + ptag, "kidhdr=" + tagStr(s.kid), "allow=" + class, "payload_size=" + size},
 		Human: map[string]any{"token": t.Raw, "allowed": allowed, "mut": mut, "scenario": s.scenName}})
 }
@@ -790,7 +803,7 @@ func (g *gen) verifyCase(kind string) {
 	if mut == "payload_null" {
 		tags = append(tags, "payload=nonobject")
 	}
-	g.w.Add(emit.Case{Input: in, Observed: obs, Tags: tags,
+	g.w.Add(emit.Case{Input: tok.Share(in), Observed: obs, Tags: tags,
 		Human: map[string]any{"verifier": kind, "token": t.Raw, "mut": mut, "scenario": s.scenName, "algs": v.Algs}})
 }
 
@@ -968,7 +981,7 @@ func (g *gen) remoteSeqCase() {
 			tags = append(tags, "derived_"+h+"=1")
 		}
 	}
-	g.w.Add(emit.Case{Input: in, Observed: o, Tags: tags, Human: map[string]any{"actions": acts, "allowed": allowed}})
+	g.w.Add(emit.Case{Input: tok.Share(in), Observed: o, Tags: tags, Human: map[string]any{"actions": acts, "allowed": allowed}})
 }
 
 // histTok is a token of a sequence together with its middle-segment description.
@@ -1084,7 +1097,7 @@ func (g *gen) verifySeqCase() {
 		o = "OPanic"
 	}
 	in := emit.Ctor("IVerifySeq", emit.Ctor("VJWTAssertion", emit.Bool(deleg)), v.Coq(), ks.Coq(), emit.List(steps))
-	g.w.Add(emit.Case{Input: in, Observed: o,
+	g.w.Add(emit.Case{Input: tok.Share(in), Observed: o,
 		Tags:  []string{"kind=verifyseq", "v=jwt", fmt.Sprintf("steps=%d", n), fmt.Sprintf("deleg=%v", deleg)},
 		Human: map[string]any{"issuer<-signer": who}})
 }
@@ -1398,7 +1411,7 @@ func (g *gen) instanceSeqCase(kind string) {
 			tags = append(tags, "has_"+h+"=1")
 		}
 	}
-	g.w.Add(emit.Case{Input: in, Observed: o, Tags: tags, Human: map[string]any{"verifier": kind, "steps": hows}})
+	g.w.Add(emit.Case{Input: tok.Share(in), Observed: o, Tags: tags, Human: map[string]any{"verifier": kind, "steps": hows}})
 }
 
 // ---------------------------------------------------------------- provider options
@@ -1572,7 +1585,7 @@ func (g *gen) providerCase() {
 	in := emit.Ctor("IProvider",
 		emit.Ctor("mkProvider", emit.Str(issuer), emit.Some(tok.JWKList(storage)), optKS(atKS), optKS(hintKS), emit.StrList(atAlgs), emit.StrList(hintAlgs)),
 		emit.Bool(hint), t.Coq(), m.Coq(), emit.Z(t0), emit.Z(t1))
-	g.w.Add(emit.Case{Input: in, Observed: obs,
+	g.w.Add(emit.Case{Input: tok.Share(in), Observed: obs,
 		Tags: []string{"kind=provider", fmt.Sprintf("verifier_hint=%v", hint), fmt.Sprintf("opt_at_keyset=%v", atKS != nil), fmt.Sprintf("opt_hint_keyset=%v", hintKS != nil),
 			fmt.Sprintf("opt_at_opts=%v", setAT), fmt.Sprintf("opt_hint_opts=%v", setHint), fmt.Sprintf("dynamic_issuer=%v", issuer != baseIssuer), "allow_at=" + atClass, "allow_hint=" + hintClass, "signer=" + who, "alg=" + alg, "mut=" + mut, "claims=" + claimMut},
 		Human: map[string]any{"token": t.Raw, "signer": who, "hint": hint}})
@@ -1636,7 +1649,7 @@ func main() {
 		}
 	}
 	err := g.w.Close(emit.Meta{Property: "C02", Tier: cfg.Tier, Seed: cfg.Seed,
-		Rule:  "1/10 sequences of 3-5 oidc.CheckSignature calls on ONE remote key set while the provider rotates / adds / withdraws keys or is unreachable (tokens signed by current, withdrawn or foreign keys; the number of successful downloads is observed); 1/10 sequences of 2-4 assertions of different issuers on ONE JWTProfileVerifier (own key / key of a client served before / delegation); 1/10 oidc.FindMatchingKey on random key lists built around the query; 2/10 oidc.CheckSignature and 5/10 the five public verifiers (JWT profile verifier with the default SubjectIsIssuer or a SubjectCheck admitting delegation, storage-backed or with a caller's key set) (rp.VerifyIDToken, op.VerifyAccessToken, op.VerifyIDTokenHint, op.VerifyJWTAssertion, op.ParseRequestObject) on a really signed token (algorithm sweep RS/PS/ES/EdDSA/HS) with one mutation of the catalogue (about half benign) against library key sets (op.OpenIDKeySet, rp remote key set incl. warm/stale cache, jwtProfileKeySet storage) built around the signer's key with distractors. Non-trivial = model path class != 0 (anything but an empty key list / ParseToken reject); distinct = distinct input term.",
+		Rule:  "per 14 cases: 1 oidc.FindMatchingKey on random key lists built around the query (near-miss kid / use); 2 oidc.CheckSignature and 5 the five public verifiers (rp.VerifyIDToken, op.VerifyAccessToken, op.VerifyIDTokenHint, op.VerifyJWTAssertion with the default SubjectIsIssuer or a SubjectCheck admitting delegation, storage-backed or with a caller's key set, op.ParseRequestObject) on a really signed token (algorithm sweep RS/PS/ES/EdDSA/HS; 1/12 with a payload beyond 1 KiB / 4 KiB) with one mutation of the catalogue (about half benign, payload smuggling twice as often) against library key sets (op.OpenIDKeySet, rp remote key set incl. warm/stale cache, jwtProfileKeySet storage, static) built around the signer's key with distractors, near-miss kid / use, kid-less twins; 1 sequence of 3-5 oidc.CheckSignature calls on ONE remote key set while the provider rotates / adds / withdraws keys or is unreachable (tokens signed by current, withdrawn or foreign keys, 9/20 of the later tokens DERIVED from earlier ones by exchanging one of header / payload / signature or replayed; the number of successful downloads is observed); 1 sequence of 2-4 assertions of different issuers on ONE JWTProfileVerifier (own key / key of a client served before / delegation); 2 sequences of 2-4 tokens on ONE instance of each verifier kind and its one key set (genuinely signed family: two signers, full / alternative / sparse claims, stranger; members as signed or with exactly one of header / payload / signature from another member, random order); 2 op.NewProvider option patterns (key set options none / one / both, verifier options, static or per-request issuer) with a token signed by a key of the storage / access-token / hint set. Non-trivial = model path class != 0 (anything but an empty key list / ParseToken reject); distinct = distinct input term.",
 		Extra: map[string]any{"clock_ambiguous": g.amb}})
 	if err != nil {
 		fmt.Fprintln(os.Stderr, err)
